@@ -46,13 +46,15 @@ def run(R):
 
     key = lambda t, n: vlib.prng_bytes(R.seed, "c09key/" + t, n)
     # Hmac (not Clone): one context slot
-    for alg, b in (("sha256", 64), ("sha512", 128), ("sha3_256", 136), ("blake2s", 64), ("sha1", 64), ("ripemd160", 64)):
+    for alg, b in (("sha256", 64), ("sha512", 128), ("sha3_256", 136), ("blake2s", 64), ("blake2b", 128), ("sha512_256", 128), ("sha1", 64), ("ripemd160", 64)):
         if not thorough and alg in ("sha1", "ripemd160"):
             continue
         behs = gen(R, "hmac", b, depth, [0, 1, b - 1, b, b + 1], 1)
         base = {"cls": "mac", "mac": "hmac", "alg": alg, "key": key("hmac" + alg, 20)}
         if alg == "blake2s":
             base["outlen"] = 32
+        if alg == "blake2b":
+            base["outlen"] = 64
         use(behs, [base], per, "hmac")
     behs = gen(R, "poly", 16, depth, [0, 1, 15, 16, 17, 32, 33], 2)
     use(behs, [{"cls": "mac", "mac": "poly1305", "key": key("poly", 32)}, {"cls": "mac", "mac": "poly1305", "key": [255] * 32}], per * 2, "poly1305")
@@ -75,6 +77,18 @@ def run(R):
             nre += 1
             R.count((label, base.get("mac"), base.get("alg"), hc.signature(b)))
     use_all(gen_reuse(R, "poly", 16, [0, 1, 15, 16, 17, 33]), {"cls": "mac", "mac": "poly1305", "key": key("polyre", 32)}, "reuse-poly", 1)
+    # re-keying of the legacy BLAKE2 objects: (key the object was built with) x (key it is re-keyed with, incl. the empty one) x (result read before or not);
+    # the plain reset that follows must restore the NEW key
+    for alg, (b, mo, mk) in hc.BLAKE.items():
+        for k0 in (0, 1, mk):
+            for k1 in (0, 3, mk):
+                for mid in (False, True):
+                    d = vlib.prng_bytes(R.seed, "c09/rekey/%s/%d/%d" % (alg, k0, k1), 3 * b)
+                    ev = [{"op": "new"}, {"op": "input", "x": 1, "data": d[:b + 5]}] + ([{"op": "result", "x": 1}] if mid else []) + \
+                         [{"op": "reset_with_key", "x": 1, "key": key("rk1" + alg, k1)}, {"op": "input", "x": 1, "data": d[:7]}, {"op": "result", "x": 1},
+                          {"op": "reset", "x": 1}, {"op": "input", "x": 1, "data": d[7:b + 20]}, {"op": "raw_result", "x": 1}]
+                    hs.append({"id": R.next_id(), "cls": "mac", "mac": alg, "outlen": mo if (k0 + k1) % 2 == 0 else 20, "key": key("rk0" + alg, k0), "ev": ev})
+                    R.count(("rekey", alg, k0, k1, mid))
     # a reused Poly1305 object fed a message crafted for each rare carry / select class of the limb code (polycraft; classes of Poly1305Donna.tla):
     # after abandoned input and reset, in two pieces, result read twice, then once more after another reset
     from props import polycraft
